@@ -444,6 +444,12 @@ var fixedPrograms = []string{
 	`(0-7) % 3`,
 	`7.9 % 2.1`,
 	`1e30 % 7`,
+	`min(0/0, 1)`, `max(0/0, 1)`, `min(1, 0/0)`, `max(0-1/0, 0/0)`, `min(1/0, 0/0)`,
+	`1 / min(0*(0-1), 0)`, `1 / max(0, 0*(0-1))`, `1 / min(0, 0*(0-1))`, `string(max(0*(0-1), 0*(0-1)))`,
+	`abs(0*(0-1))`, `1/abs(0*(0-1))`, `round(0-0.4)`, `1/round(0-0.4)`, `1/ceil(0-0.5)`, `floor(0/0)`,
+	`min([0/0, 1])`, `max([1, 0/0])`, `min([0, 0*(0-1)])`,
+	`(0/0) == (0/0)`, `(0/0) != (0/0)`, `(0/0) < 1`, `(0/0) >= 1`, `(1/0) == (1/0)`, `(1/0) != (1/0)`, `(1/0) > 1e308`,
+	`!(n1 == n2)`, `!(n1 != n2)`, `!(n1 < n2)`, `!((0/0) < 1)`, `!((1/0) == (1/0))`,
 }
 
 func init() {
